@@ -19,6 +19,7 @@ import (
 	"os"
 	"os/exec"
 	"path/filepath"
+	"runtime"
 	"strconv"
 	"strings"
 	"time"
@@ -160,31 +161,67 @@ type botScn struct {
 	size   int
 	script []tak.Move
 	alt    tak.Move // a flat on a square the script never touches: legal at every ply of the script
+	hasAlt bool     // false (full-board scripts): the alternative answer is the first move legal in the record's current position
 	pre    int      // plies played by the canonical prefix before the enumeration starts
 	replay int      // moves the server replays (resume) from the start, whoever is to move
 	menu   string   // enabled event classes
 	depth  int
 	gameNo int
+	end    string // class of the script's final position ("" = game still running)
 }
 
-var botScripts = map[int][]string{
-	3: {"a1", "c3", "c2", "a2", "c1"},                                            // white road at ply 5
-	4: {"a1", "d4", "b1", "c4", "b2", "c3", "b1+", "c4-", "Sa3", "d1", "2b2>11"}, // slides and a wall
-	5: {"a1", "e1", "e3", "b1", "e2", "b2", "Ce4", "a2", "e5"},                   // the transcript of bot_test.go (capstone, white road)
+var botDeadline time.Time
+
+type botScript struct {
+	name  string
+	size  int
+	moves []string
+	end   string // "" = the script stops in a running game; else the class of its final position
 }
 
-func mkScript(size int) ([]tak.Move, tak.Move) {
+// the three long games of the ordinary scenarios ...
+var botScripts = []botScript{
+	{"g3", 3, []string{"a1", "c3", "c2", "a2", "c1"}, "road-W"},                                      // white road at ply 5
+	{"g4", 4, []string{"a1", "d4", "b1", "c4", "b2", "c3", "b1+", "c4-", "Sa3", "d1", "2b2>11"}, ""}, // slides and a wall
+	{"g5", 5, []string{"a1", "e1", "e3", "b1", "e2", "b2", "Ce4", "a2", "e5"}, "road-W"},             // the transcript of bot_test.go (capstone, white road)
+}
+
+// ... and short 3x3 games for every class of final position x colour of the last mover: draw (board full,
+// equal flats, BlackWinsTies=false), decisive flat count, road of the mover, road of the other side.  With the
+// bot playing either colour every class is reached both by the opponent's move and by the bot's own move.
+var botEndScripts = []botScript{
+	{"drawW", 3, []string{"a1", "c1", "Sc2", "Sc3", "b1", "a3", "Sb3", "b2", "a2"}, "flats-N"},
+	{"drawB", 3, []string{"c2", "a2", "Sa1", "c2<", "b3", "Sc1", "Sc3", "c2", "a3", "b1"}, "flats-N"},
+	{"draw9", 3, []string{"b3", "a3", "c3", "a2", "Sb2", "c2", "a1", "b1", "c1"}, "flats-N"},
+	{"flatsWW", 3, []string{"b2", "c2", "c1", "Sa3", "Sa2", "Sa1", "Sb1", "Sc3", "b3"}, "flats-W"},
+	{"flatsWB", 3, []string{"a2", "b3", "c2", "Sb2", "Sb1", "a3", "c1", "a2-", "Sc3", "Sa2"}, "flats-W"},
+	{"flatsBW", 3, []string{"b2", "b1", "Sa2", "a3", "Sc1", "Sc3", "c2", "b3", "Sa1"}, "flats-B"},
+	{"flatsBB", 3, []string{"a2", "b3", "Sb1", "a1", "b3>", "c1", "b3", "Sa3", "Sc2", "Sb2"}, "flats-B"},
+	{"roadWW", 3, []string{"c3", "b1", "c1", "c2", "a1"}, "road-W"},
+	{"roadWB", 3, []string{"b3", "c3", "b1", "b3>", "b2", "2c3<11"}, "road-W"},
+	{"roadBB", 3, []string{"c2", "a2", "a3", "c1", "b2", "c3"}, "road-B"},
+	{"roadBW", 3, []string{"b3", "a1", "a3", "b1", "a3>", "b2", "b3<"}, "road-B"},
+}
+
+// mkScript parses and replays a script on the real rules (no move after the end of the game, the final
+// position of the declared class) and picks the `alt` answer: a flat on a square no move of the script touches
+// (legal at every ply), if there is one.
+func mkScript(sc botScript) ([]tak.Move, tak.Move, bool) {
 	var ms []tak.Move
+	size := sc.size
 	p := tak.New(tak.Config{Size: size})
 	touched := map[[2]int8]bool{}
-	for _, s := range botScripts[size] {
+	for _, s := range sc.moves {
+		if over, _ := p.GameOver(); over {
+			panic("C07 script " + sc.name + ": move after the end: " + s)
+		}
 		m, err := ptn.ParseMove(s)
 		if err != nil {
 			panic("C07 script: " + s)
 		}
 		n, err := p.Move(m)
 		if err != nil {
-			panic("C07 script illegal: " + s)
+			panic("C07 script " + sc.name + " illegal: " + s)
 		}
 		touched[[2]int8{m.X, m.Y}] = true
 		if m.IsSlide() {
@@ -206,14 +243,25 @@ func mkScript(size int) ([]tak.Move, tak.Move) {
 		ms = append(ms, m)
 		p = n
 	}
+	d := p.WinDetails()
+	got := ""
+	if d.Over {
+		got = "flats-" + colorStr(d.Winner)
+		if d.Reason == tak.RoadWin {
+			got = "road-" + colorStr(d.Winner)
+		}
+	}
+	if got != sc.end {
+		panic("C07 script " + sc.name + ": final position is " + got + ", declared " + sc.end)
+	}
 	for y := int8(size - 1); y >= 0; y-- {
 		for x := int8(size - 1); x >= 0; x-- {
 			if !touched[[2]int8{x, y}] && int(x) != int(y) {
-				return ms, tak.Move{X: x, Y: y, Type: tak.PlaceFlat}
+				return ms, tak.Move{X: x, Y: y, Type: tak.PlaceFlat}, true
 			}
 		}
 	}
-	panic("C07 script: no free square")
+	return ms, tak.Move{}, false
 }
 
 // ---- one run = one schedule on a fresh bot
@@ -327,11 +375,10 @@ func firstLegal(p *tak.Position) (tak.Move, bool) {
 	return tak.Move{}, false
 }
 
-// scriptMove: the script's move for p if p is still on the script and the move is legal, else the first legal move
+// scriptMove: the script's move for p if p is still on the script and the move is legal, else the first move that
+// Position.Move accepts (which does not look at the end of the game: a thinker asked about a finished position gets
+// an answer that would be transmitted)
 func (r *botRun) scriptMove(p *tak.Position) (tak.Move, bool) {
-	if over, _ := p.GameOver(); over {
-		return tak.Move{}, false
-	}
 	if k := p.MoveNumber(); k < len(r.scn.script) && legalIn(p, r.scn.script[k]) {
 		return r.scn.script[k], true
 	}
@@ -369,7 +416,8 @@ func (r *botRun) options() []botOpt {
 		o = append(o, botOpt{cl, func() { r.used[cl]++; r.c.Count("ev:" + string(cl)); f() }})
 	}
 	// M: the next move announced by the server (opponent's move, any move while replaying or observing)
-	if r.replay > 0 || r.scn.colour == "o" || !r.botToMove() {
+	srvOver, _ := r.cur().GameOver()
+	if !srvOver && (r.replay > 0 || r.scn.colour == "o" || !r.botToMove()) {
 		if m, ok := r.scriptMove(r.cur()); ok {
 			add('M', func() {
 				if r.replay > 0 {
@@ -401,7 +449,13 @@ func (r *botRun) options() []botOpt {
 		if m, ok := r.scriptMove(c.p); ok {
 			add('a', func() { tag(); r.emit("ev aireturns " + encMove(m)) })
 		}
-		add('A', func() { tag(); r.emit("ev aireturns " + encMove(r.scn.alt)) })
+		alt, okAlt := r.scn.alt, r.scn.hasAlt
+		if !okAlt {
+			alt, okAlt = firstLegal(b.game.VerifP())
+		}
+		if okAlt {
+			add('A', func() { tag(); r.emit("ev aireturns " + encMove(alt)) })
+		}
 		add('x', func() { tag(); r.emit("ev aireturns 0,0,0,0") })
 	} else if over, _ := b.game.VerifP().GameOver(); over && !b.over() {
 		r.c.Count("state:decided-position-idle-thinker")
@@ -462,6 +516,9 @@ func (r *botRun) prefix(k int) {
 			r.emit("ev aireturns " + encMove(m))
 			continue
 		}
+		if over, _ := r.cur().GameOver(); over {
+			return
+		}
 		m, ok := r.scriptMove(r.cur())
 		if !ok {
 			return
@@ -483,6 +540,10 @@ func exploreScn(c *Ctx, scn *botScn, first int, caseID *int, variant string, bud
 	stack := []botFrame{}
 	runs := 0
 	for runs < budget {
+		if runs > 0 && scn.depth > 2 && time.Now().After(botDeadline) {
+			c.Count("budget:unit-truncated")
+			break
+		}
 		r := &botRun{c: c, scn: scn, variant: variant}
 		*caseID++
 		r.start(*caseID)
@@ -517,6 +578,16 @@ func exploreScn(c *Ctx, scn *botScn, first int, caseID *int, variant string, bud
 		if r.b != nil {
 			c.Count("end:" + r.b.status())
 			c.Count(fmt.Sprintf("sent:%d", r.seen))
+			if over, _ := r.cur().GameOver(); over && scn.end != "" {
+				who := "opponent"
+				if !r.botToMove() && scn.colour != "o" {
+					who = "bot"
+				}
+				if scn.colour == "o" {
+					who = "observed"
+				}
+				c.Count("finished:" + scn.end + ":last-move-by-" + who)
+			}
 		}
 		if depth < len(stack) {
 			stack = stack[:depth]
@@ -585,10 +656,11 @@ func genBotWorker(c *Ctx) {
 	}
 	extra += envInt("VERIF_C07_EXTRA_DEPTH", 0)
 	var scns []*botScn
-	for _, size := range []int{3, 4, 5} {
-		script, alt := mkScript(size)
+	for _, sc := range botScripts {
+		script, alt, hasAlt := mkScript(sc)
+		size := sc.size
 		mk := func(name, colour, menu string, pre, replay, depth int) {
-			scns = append(scns, &botScn{name: fmt.Sprintf("%s-%s%d", name, colour, size), colour: colour, size: size, script: script, alt: alt,
+			scns = append(scns, &botScn{name: fmt.Sprintf("%s-%s%d", name, colour, size), colour: colour, size: size, script: script, alt: alt, hasAlt: hasAlt,
 				pre: pre, replay: replay, menu: menu, depth: depth + extra, gameNo: 100 + len(scns)})
 		}
 		maxPre := len(script) - 1
@@ -596,12 +668,12 @@ func genBotWorker(c *Ctx) {
 			maxPre = 2
 		}
 		for _, colour := range []string{"w", "b"} {
+			for rp := 1; rp <= maxPre+1 && rp <= len(script); rp++ {
+				mk(fmt.Sprintf("resume%d", rp), colour, "MTaAt", 0, rp, 5)
+			}
 			for pre := 0; pre <= maxPre; pre++ {
 				mk(fmt.Sprintf("core@%d", pre), colour, "MTaAt", pre, 0, 5)
 				mk(fmt.Sprintf("undo@%d", pre), colour, "MaAtuU", pre, 0, 5)
-			}
-			for rp := 1; rp <= maxPre+1 && rp <= len(script); rp++ {
-				mk(fmt.Sprintf("resume%d", rp), colour, "MTaAt", 0, rp, 5)
 			}
 			mk("end@1", colour, "MaAtonz", 1, 0, 4)
 			mk("end@last", colour, "MTaAtonz", len(script)-2, 0, 4)
@@ -610,14 +682,46 @@ func genBotWorker(c *Ctx) {
 		mk("obs@0", "o", "MTatuUo", 0, 0, 5)
 		mk("obs@2", "o", "MTatV", 2, 0, 4)
 	}
+	// finished positions of every class, reached by the opponent's and by the bot's own move; afterwards the clock
+	// line, the grace timer, Over and whatever a thinker might answer, in every order
+	var fin []*botScn
+	for _, sc := range botEndScripts {
+		script, alt, hasAlt := mkScript(sc)
+		n := len(script)
+		mk := func(name, colour, menu string, pre, depth int) {
+			fin = append(fin, &botScn{name: fmt.Sprintf("fin-%s-%s%s", sc.name, name, colour), colour: colour, size: sc.size, script: script, alt: alt, hasAlt: hasAlt,
+				pre: pre, menu: menu, depth: depth + extra, gameNo: 500 + len(fin), end: sc.end})
+		}
+		for _, colour := range []string{"w", "b"} {
+			mk("last", colour, "MTaAto", n-1, 4)
+			mk("undo", colour, "MTatuUo", n-1, 4)
+		}
+		mk("last", "o", "MTato", n-1, 3)
+	}
+	scns = append(fin, scns...)
+	budget := time.Duration(envInt("VERIF_C07_BUDGET_S", map[bool]int{false: 8, true: 900}[c.Thorough()])) * time.Second
+	botDeadline = time.Now().Add(budget)
 	caseID := shard * 10000000
 	for _, scn := range scns {
 		for first := 0; first < 8; first++ {
 			if int(hashStr(fmt.Sprintf("%s/%d", scn.name, first))%uint64(nshard)) != shard {
 				continue
 			}
+			if time.Now().After(botDeadline) {
+				// over the wall-clock budget (a loaded machine): every remaining unit still runs, two events deep
+				c.Count("budget:unit-cut-to-depth-2")
+				cut := *scn
+				cut.depth = 2
+				exploreScn(c, &cut, first, &caseID, variant, 1<<30)
+				continue
+			}
 			exploreScn(c, scn, first, &caseID, variant, 1<<30)
 		}
+	}
+	if n := runtime.NumGoroutine(); n > 16 {
+		// bot games that were not shut down leave goroutines behind and make every quiescence dump slower
+		c.Count(fmt.Sprintf("GOROUTINE-LEAK:%d", n))
+		c.Emit("botleak")
 	}
 	// random deep walks over everything, including lines the server never sends
 	rng := NewRNG(c.Seed*7919 + uint64(shard)*104729 + 12345)
@@ -626,6 +730,10 @@ func genBotWorker(c *Ctx) {
 		walks = 160000 / nshard
 	}
 	for i := 0; i < walks; i++ {
+		if time.Now().After(botDeadline) {
+			c.Count("budget:walks-cut")
+			break
+		}
 		base := scns[rng.Intn(len(scns))]
 		w := *base
 		w.name = "walk-" + w.colour + strconv.Itoa(w.size)
@@ -646,4 +754,5 @@ func genBotWorker(c *Ctx) {
 
 func init() {
 	opTable["botnondet"] = func(s *Session, a []string) string { return "nondeterministic-menu" }
+	opTable["botleak"] = func(s *Session, a []string) string { return "goroutine-leak" }
 }
